@@ -7,6 +7,7 @@
 -/
 import Y0.Lemmas.PrintExpr
 import Y0.Lemmas.PrintEvalExpr
+import Y0.Lemmas.PrintDenEval
 
 namespace Y0
 namespace C12
@@ -62,6 +63,41 @@ theorem parse_print_same_text (lt : Expr → Expr → Bool) (e e' : Expr) (hb : 
   cases hp
   rfl
 
+/-! ## 3. the meaning clause: for EVERY built expression (fractions of fractions, fraction factors, constants) parsing
+the printed form succeeds and yields an object with the same denotation
+
+`den env σ' e σ` (Y0.Spec.Sem) is the number `e` denotes in the family of distributions `env`; the statement needs no
+hypothesis on `env` (not even positivity): the parser only re-associates products and rewrites
+`a/b/(c/d) = a·d/(b·c)`, `a/(c/d) = a·d/c`, `a/b/c = a/(b·c)`, `x/One() = x`, which are identities of ℚ with `x/0 = 0`. -/
+
+theorem parse_print_den (lt : Expr → Expr → Bool) (e : Expr) (hb : built lt e = true) :
+    ∃ e', PyEval.parseY0 lt (Print.expr e) = .ok e' ∧
+      ∀ (env : Env) (σ' σ : Y0.Val), den env σ' e' σ = den env σ' e σ := by
+  unfold PyEval.parseY0 PyEval.evalExpr
+  rw [parse_print_ast e (wf_of_built lt e hb)]
+  by_cases hz : isZero e = true
+  · have : e = .zero := by cases e <;> simp [isZero] at hz; rfl
+    subst this
+    exact ⟨.zero, rfl, fun _ _ _ => rfl⟩
+  · have hz' : isZero e = false := by simpa using hz
+    obtain ⟨e', he', _, hd⟩ := eval_astOf_den lt e hb (nz_of_built lt e hb hz')
+    exact ⟨e', by simp only [he'], hd⟩
+
+/-- the meaning clause with the object returned by the parser named explicitly -/
+theorem parse_print_den' (lt : Expr → Expr → Bool) (e e' : Expr) (hb : built lt e = true)
+    (hp : PyEval.parseY0 lt (Print.expr e) = .ok e') (env : Env) (σ' σ : Y0.Val) :
+    den env σ' e' σ = den env σ' e σ := by
+  obtain ⟨e'', h1, h2⟩ := parse_print_den lt e hb
+  rw [h1] at hp
+  cases hp
+  exact h2 env σ' σ
+
+/-- parsing a printed built expression never fails (`NameError`, `SyntaxError`, `ZeroDivisionError`, `TypeError` …) -/
+theorem parse_print_total (lt : Expr → Expr → Bool) (e : Expr) (hb : built lt e = true) :
+    ∃ e', PyEval.parseY0 lt (Print.expr e) = .ok e' :=
+  let ⟨e', h, _⟩ := parse_print_den lt e hb
+  ⟨e', h⟩
+
 /-! non-vacuity: a well-formed expression with a product denominator, a fraction factor, a level-2 probability and a
 counterfactual variable; its printed form and its tree -/
 
@@ -78,6 +114,16 @@ def sample2 : Expr :=
                .sum (.frac (.prob none [{ name := 7, ivs := [⟨5, false⟩] }] [{ name := 2, ivs := [⟨5, false⟩] }])
                            (.prod [.q [Var.plain 1] [Var.plain 3], .prob none [Var.plain 2] []])) [Var.plain 5]])
        [Var.plain 2]
+
+/-- outside the simple-division family: a fraction as a factor of a product, a fraction of fractions, `One()` as an
+operand; the parser returns a different object with the same meaning -/
+def sample3 : Expr :=
+  .prod [.sum (.prob none [Var.plain 1] []) [Var.plain 1],
+         .frac (.frac .one (.prob none [Var.plain 2] [])) (.frac (.prob none [Var.plain 3] []) (.prob none [Var.plain 4] []))]
+
+example : built PyEval.exprLt sample3 = true := by decide
+example : simple sample3 = false := by decide
+example : ∃ e', PyEval.parseY0 PyEval.exprLt (Print.expr sample3) = .ok e' := parse_print_total _ sample3 (by decide)
 
 example : built PyEval.exprLt sample2 = true := by decide
 example : simple sample2 = true := by decide
